@@ -85,6 +85,11 @@ def run_case(ctx, seed, idx, tier):
         {'and': 0.40, 'or': 0.20, 'ite': 0.18, 'then': 0.10, 'not': 0.12},
         {'and': 0.20, 'or': 0.20, 'ite': 0.35, 'then': 0.10, 'not': 0.15},
     ])
+    if rng.random() < 0.06:
+        # long bodies: a disjunction in front of 8-18 further goals, control constructs (with cuts in their branches)
+        # among them
+        from . import c05
+        return c05.long_body_case(ctx, rng, _nt)
     clauses, qn, na = gen.gen_control_case(rng, weights=w, allow_cut_p=0.4)
     c = {'random_bodies': 1}
     if rng.random() < 0.15:
